@@ -83,11 +83,17 @@ func HEAD_ubjson(h *rt.H) {
 		pre = []byte{'[', '$', 'i', '#'}
 	case 5:
 		pre = []byte{'{'}
-	case 6:
-		// typed container with a symbolic element type marker (incl. no-op, containers)
-		pre = []byte{'[', '$', h.U8("elemtype"), '#'}
-	case 7:
-		pre = []byte{'{', '$', h.U8("elemtype"), '#'}
+	case 6, 7:
+		// typed container with a symbolic element type marker (incl. no-op, containers).
+		// Elements of type null/true/false have no payload: such a container
+		// legitimately expands to its (here unbounded, symbolic) count; excluded.
+		et := h.U8("elemtype")
+		h.Assume(et != 'T' && et != 'F' && et != 'Z')
+		open := byte('[')
+		if shape == 7 {
+			open = '{'
+		}
+		pre = []byte{open, '$', et, '#'}
 	}
 	lm := []byte{'i', 'U', 'I', 'l', 'L'}[h.Choose("lenmarker", 0, 4)]
 	w := map[byte]int{'i': 1, 'U': 1, 'I': 2, 'l': 4, 'L': 8}[lm]
